@@ -1,5 +1,5 @@
 (** C18 — PageRank converges to the solution of its documented equation.
-    Statements and [Print Assumptions] only.  The model (Algo/PageRankQ.v) is over exact
+    Statements and [Print Assumptions] only.  The model (Algo/PageRankM.v) is over exact
     rationals: the racy reads of the parallel sweep are modelled as an arbitrary write order
     plus an arbitrary choice, per read, between the old and the new value; f64 rounding is
     outside the model. *)
